@@ -5,6 +5,7 @@
    documented special cases on the crate's values.  The theorems below are about the Gallina
    transcription of src/similarity/defaults.rs, in EVERY number structure. PARTIAL: finiteness of the
    float results is not a theorem (no rounding / overflow analysis); `expf` is an oracle. *)
+From Coq Require Import Sorted.
 From HpoV Require Import Gen.Consts Model.Base Model.Group Model.Onto Model.Query Model.Similarity Proofs.C04P.
 
 Theorem C04_self_is_one : forall F fadd fsub fmul fdiv fgt fis0 fzero fnzero fone ftwo fmone f_of_u16 fexp ic o k a b,
@@ -39,9 +40,24 @@ Theorem C04_resnik_is_zero_or_an_ancestor_ic : forall F fadd fsub fmul fdiv fgt 
   r = fzero \/ exists cs t, resolve_all o (all_common_ancestor_ids a b) = Ok cs /\ In t cs /\ r = ic k t.
 Proof. exact resnik_is_zero_or_an_ancestor_ic. Qed.
 
+(* THE SCORE DOES NOT DEPEND ON THE ARGUMENT ORDER: for all 8 algorithms and 3 kinds, in every number
+   structure with commutative addition (IEEE-754 addition is), for every ontology whose ancestor
+   caches and annotation sets are ascending groups — whenever a score is returned, the swapped call
+   returns the same score.  Rests on: union / intersection of sorted groups are equal LISTS in
+   either order (C12), so every sum folds over the same sequence. *)
+Theorem C04_symmetric : forall F fadd fsub fmul fdiv fgt fis0 fzero fnzero fone ftwo fmone f_of_u16 fexp ic,
+  (forall x y, fadd x y = fadd y x) ->
+  forall o k a b, StronglySorted N.lt (t_allp a) -> StronglySorted N.lt (t_allp b) ->
+    StronglySorted N.lt (t_annots k a) -> StronglySorted N.lt (t_annots k b) ->
+    forall g r,
+      similarity F fadd fsub fmul fdiv fgt fis0 fzero fnzero fone ftwo fmone f_of_u16 fexp ic g o k a b = Ok r ->
+      similarity F fadd fsub fmul fdiv fgt fis0 fzero fnzero fone ftwo fmone f_of_u16 fexp ic g o k b a = Ok r.
+Proof. exact similarity_symmetric. Qed.
+
 Print Assumptions C04_self_is_one.
 Print Assumptions C04_mutation_unannotated_zero.
 Print Assumptions C04_distance_ignores_kind.
 Print Assumptions C04_lin_zero_denominator_guard.
 Print Assumptions C04_jc_zero_guard.
 Print Assumptions C04_resnik_is_zero_or_an_ancestor_ic.
+Print Assumptions C04_symmetric.
